@@ -8,6 +8,7 @@ import (
 	"path/filepath"
 	"sort"
 	"strings"
+	"time"
 
 	clover "github.com/ostafen/clover/v2"
 	d "github.com/ostafen/clover/v2/document"
@@ -30,6 +31,15 @@ func streamC11(c *Ctx) {
 		"non-trivial = distinct documents containing a time or an integer extreme inside an array or object"
 	dr := StartDriver(c.DriverBin)
 	defer dr.Close()
+	// byte-level comparison with the model: a disagreement is recorded once (a correspondence break, not a failing
+	// input) and the stream goes on with the laws that need no model
+	modelOff := false
+	cb := func(m map[string]interface{}, enc []byte) bool {
+		if !modelOff && !codecBytes(c, dr, m, enc) {
+			modelOff = true
+		}
+		return true
+	}
 	n := c.N(600, 6000)
 	depth := 3
 	if !c.Quick() {
@@ -53,7 +63,7 @@ func streamC11(c *Ctx) {
 			c.Violation(&Replay{Stream: "codec", Case: []interface{}{J{"k": "codec", "doc": encDoc(m1)}}, Expected: []string{canonDoc(m1)}, Actual: []string{fmt.Sprint(derr), got}, Note: "Decode(Encode(d)) differs from d"})
 			return false
 		}
-		return codecBytes(c, dr, m1, enc1)
+		return cb(m1, enc1)
 	}
 	// zone offsets, systematically: every offset Go's binary time format can carry comes back as written - in
 	// particular the negative ones with a seconds component, which time.MarshalBinary itself gets wrong (F34);
@@ -120,6 +130,66 @@ func streamC11(c *Ctx) {
 			}
 		}
 	}
+	// times far outside the range of UnixNano (the zero time, 1582, 2300, 9999), in UTC and in zones, at the top level, in
+	// an array and in an object inside an array - through the codec and through a store: the same instant (compared with
+	// time.Equal and by calendar fields, not through UnixNano, which wraps out there) and the same zone offset
+	{
+		far := []time.Time{{}, time.Date(1582, 10, 15, 12, 0, 0, 5, time.UTC), time.Date(2300, 1, 1, 0, 0, 0, 0, time.UTC), time.Date(9999, 12, 31, 23, 59, 59, 999999999, time.UTC),
+			time.Date(1582, 10, 15, 12, 0, 0, 5, time.FixedZone("", 3600)), time.Date(2300, 1, 1, 0, 0, 0, 0, time.FixedZone("", -27000)), time.Date(1, 1, 1, 0, 0, 0, 0, time.FixedZone("", 3600))}
+		sameT := func(a interface{}, b time.Time) bool {
+			t, ok := a.(time.Time)
+			if !ok {
+				return false
+			}
+			_, oa := t.Zone()
+			_, ob := b.Zone()
+			return t.Equal(b) && oa == ob && t.Year() == b.Year() && t.Nanosecond() == b.Nanosecond()
+		}
+		okDoc := func(m map[string]interface{}, t time.Time) bool {
+			l, _ := m["l"].([]interface{})
+			if len(l) != 2 {
+				return false
+			}
+			z, _ := l[1].(map[string]interface{})
+			return sameT(m["t"], t) && sameT(l[0], t) && z != nil && sameT(z["z"], t)
+		}
+		fim := NewImpl("bbolt", c.Scratch)
+		fim.db.CreateCollection("far")
+		for i, t := range far {
+			c.Evals++
+			m := map[string]interface{}{"_id": fixedId(690000 + i), "t": t, "l": []interface{}{t, map[string]interface{}{"z": t}}}
+			show := []string{t.Format(time.RFC3339Nano)}
+			enc, err := d.Encode(d.NewDocumentOf(m))
+			if err != nil {
+				c.Violation(&Replay{Stream: "codec", Case: []interface{}{J{"k": "far-time", "time": show[0]}}, Actual: []string{err.Error()}, Note: "document.Encode refuses a time far from 1970"})
+				fim.Destroy()
+				return
+			}
+			dec, derr := d.Decode(enc)
+			if derr != nil || !okDoc(dec.AsMap(), t) {
+				got := ""
+				if derr == nil {
+					got = fmt.Sprint(dec.AsMap()["t"])
+				}
+				c.Violation(&Replay{Stream: "codec", Case: []interface{}{J{"k": "far-time", "time": show[0]}}, Expected: show, Actual: []string{fmt.Sprint(derr), got}, Note: "a time far from 1970 does not come back from Decode(Encode(d)) as the same instant and zone"})
+				fim.Destroy()
+				return
+			}
+			if err := fim.db.Insert("far", d.NewDocumentOf(m)); err != nil {
+				c.Violation(&Replay{Stream: "codec", Case: []interface{}{J{"k": "far-time", "time": show[0]}}, Actual: []string{err.Error()}, Note: "Insert refuses a document holding a time far from 1970"})
+				fim.Destroy()
+				return
+			}
+			back, ferr := fim.db.FindById("far", fixedId(690000+i))
+			if ferr != nil || back == nil || !okDoc(back.AsMap(), t) {
+				c.Violation(&Replay{Stream: "codec", Case: []interface{}{J{"k": "far-time", "time": show[0]}}, Expected: show, Actual: []string{fmt.Sprint(ferr)}, Note: "a time far from 1970 is not read back from the store as the same instant and zone"})
+				fim.Destroy()
+				return
+			}
+			c.Count("far-time-cell")
+		}
+		fim.Destroy()
+	}
 	if _, err := d.Encode(d.NewDocumentOf(map[string]interface{}{"_id": fixedId(1), "t": mkTime(0, -60)})); err == nil {
 		c.Count("zone-offset:-60-accepted") // (would need a decode check; today it is refused)
 	}
@@ -164,7 +234,7 @@ func streamC11(c *Ctx) {
 						im.Destroy()
 						return
 					}
-					if !codecBytes(c, dr, m, enc) {
+					if !cb(m, enc) {
 						im.Destroy()
 						return
 					}
